@@ -7,7 +7,7 @@ use flac_codec::encode::{FlacStreamWriter, Options};
 use serde_json::{json, Value};
 use vph::refdec;
 
-pub const RULE: &str = "every case of the C01 space (a)-(i) (incl. all four writer front-ends and both byte orders) is encoded by the real crate and the finished bytes are judged by the independent strict validator (sync, reserved bits/codes, coded numbers, header/STREAMINFO consistency, CRC-8/16, zero padding, wasted-bit/predictor/partition/residual rules with UNTRUNCATED prediction, frame numbering, block sizes, sample count, MD5, frame-size extrema, no trailing bytes) and the independent decode must equal the input PCM; plus FlacStreamWriter output for all frame sequences of 1..2 frames × all PCM over Σ up to 3 PCM frames × channels 1..3 × subset depths with parameters changing between frames, and every FlacStreamWriter call history of 3 valid frames with ≤2 rejected calls (9 kinds: unsupported depth/rate, too many samples, odd sample count, empty slice, bad channel count) inserted at every position; distinct outcomes = (set, verdict, subframe kinds, channel code, partition orders)";
+pub const RULE: &str = "every case of the C01 space (a)-(i) (incl. all four writer front-ends and both byte orders) is encoded by the real crate and the finished bytes are judged by the independent strict validator (sync, reserved bits/codes, coded numbers, header/STREAMINFO consistency, CRC-8/16, zero padding, wasted-bit/predictor/partition/residual rules with UNTRUNCATED prediction, frame numbering, block sizes, sample count, MD5, frame-size extrema, no trailing bytes) and the independent decode must equal the input PCM; plus FlacStreamWriter output for all frame sequences of 1..2 frames × all PCM over Σ up to 3 PCM frames × channels 1..3 × subset depths with parameters changing between frames, and every FlacStreamWriter call history of 3 valid frames with ≤2 rejected calls (9 kinds: unsupported depth/rate, too many samples, odd sample count, empty slice, bad channel count) inserted at every position; plus write-call histories on 40-PCM-frame inputs (2.5 blocks; stereo 16-bit, mono 8-bit, 3-channel 20-bit) × 4 writers × declared/undeclared × every ≤2-cut history (byte writers in quick: a fixed 1/3 sub-lattice of the 2-cut pairs) × {plain, flush() after every call, dropped instead of finalized}; distinct outcomes = (set, verdict, subframe kinds, channel code, partition orders)";
 pub const ASSUMPTIONS: &[&str] = &["refdec is bound to reality by decoding the libFLAC-made fixtures with matching MD5 and by inverting the independently written stream builder (selftest)", "same input bounds as C01"];
 pub fn bounds(quick: bool) -> Value {
     super::c01::bounds(quick)
@@ -110,6 +110,7 @@ pub fn run(ctx: &Ctx, acc: &mut Acc) {
         }
     });
     run_rejection_histories(ctx, acc);
+    run_write_histories(ctx, acc);
     // raw frame streams
     let menu: Vec<(u32, u8, u32)> = vec![(44100, 1, 16), (8000, 2, 8), (12345, 3, 24), (100010, 1, 12), (96000, 2, 32), (22050, 2, 20)];
     for (i, &(rate, ch, bps)) in menu.iter().enumerate() {
@@ -136,6 +137,61 @@ pub fn run(ctx: &Ctx, acc: &mut Acc) {
                     acc.violation(sig, what, json!({"kind":"raw-frames","frames":frames.iter().map(|(r,c,b,p)| json!({"rate":r,"ch":c,"bps":b,"pcm":p})).collect::<Vec<_>>()}));
                 }
             });
+        }
+    }
+}
+
+/// Write-call histories (the C08 dimension) judged by the validator: every ≤2-cut history × {plain, flush after every
+/// call (byte writers), dropped instead of finalized} on 2.5-block inputs — a frame emitted early or late by some
+/// history would be a short non-final block / a wrong MD5 even if the crate's own decoder still accepted the file.
+fn run_write_histories(ctx: &Ctx, acc: &mut Acc) {
+    use crate::codec::{encode_hist, WriterKind, WRITERS};
+    for sig in [Sig { rate: 44100, bps: 16, ch: 2 }, Sig { rate: 8000, bps: 8, ch: 1 }, Sig { rate: 48000, bps: 20, ch: 3 }] {
+        let pcm = crate::corpus::ident_pcm(sig.ch, sig.bps, 40);
+        for declared in [true, false] {
+            let opt = Opt { declared, ..Opt::base16() };
+            for w in WRITERS {
+                let byte = matches!(w, WriterKind::ByteLE | WriterKind::ByteBE);
+                let u = match w {
+                    WriterKind::Sample => pcm.len(),
+                    WriterKind::Channel => 40,
+                    _ => pcm.len() * crate::codec::bytes_per_sample(sig.bps),
+                };
+                let mut hist: Vec<Vec<usize>> = vec![vec![]];
+                for a in 0..=u {
+                    hist.push(vec![a]);
+                    for b in a + 1..u {
+                        if !byte || ((a % 3 != 2) && b % 2 == 1) || ctx.quick == false {
+                            hist.push(vec![a, b]);
+                        }
+                    }
+                }
+                for cuts in hist {
+                    if !ctx.mine() {
+                        continue;
+                    }
+                    acc.states += 1;
+                    for (flush, drop_it) in [(false, false), (true, false), (false, true)] {
+                        if flush && !byte {
+                            continue;
+                        }
+                        acc.executions += 1;
+                        acc.transitions += cuts.len() as u64 + 2;
+                        let (out, v) = match encode_hist(w, &opt, &sig, &pcm, Some(&cuts), flush, drop_it) {
+                            Ok(bytes) => judge(&bytes, &pcm, &sig),
+                            Err(e) => (format!("encode-{}", err_class(&e)), Some((format!("C02|encode|{}", err_class(&e)), format!("encoding failed: {e}")))),
+                        };
+                        acc.outcome(format!("hist:{w:?}:{}{}:{out}", if flush { "flush" } else { "" }, if drop_it { "drop" } else { "" }));
+                        if let Some((s, what)) = v {
+                            let mut case = case_json("hist-validate", w, &opt, &sig, &pcm);
+                            case["cuts"] = json!(cuts);
+                            case["flush"] = json!(flush);
+                            case["drop"] = json!(drop_it);
+                            acc.violation(format!("{s}|hist{}{}", if flush { "+flush" } else { "" }, if drop_it { "+drop" } else { "" }), format!("{w:?} split at {cuts:?}{}{}: {what}", if flush { " with flush() after every call" } else { "" }, if drop_it { ", dropped instead of finalized" } else { "" }), case);
+                        }
+                    }
+                }
+            }
         }
     }
 }
@@ -225,6 +281,18 @@ pub fn replay(v: &Value) -> Option<(bool, String)> {
                 Ok((bytes, acc)) => if acc > 0 { None } else { judge_raw(&bytes, &valid) },
             };
             Some((r.is_some(), format!("{r:?}")))
+        }
+        "hist-validate" => {
+            let pcm = crate::core::ivec(&v["pcm"]);
+            let sig = crate::codec::sig_from(v);
+            let opt = Opt::from_json(&v["opt"]);
+            let w = crate::codec::writer_from(v["writer"].as_str().unwrap_or(""));
+            let cuts: Vec<usize> = v["cuts"].as_array()?.iter().map(|x| x.as_u64().unwrap_or(0) as usize).collect();
+            let (out, viol) = match crate::codec::encode_hist(w, &opt, &sig, &pcm, Some(&cuts), v["flush"].as_bool().unwrap_or(false), v["drop"].as_bool().unwrap_or(false)) {
+                Ok(bytes) => judge(&bytes, &pcm, &sig),
+                Err(e) => (format!("encode-{}", err_class(&e)), Some((String::new(), e))),
+            };
+            Some((viol.is_some(), format!("outcome={out} {}", viol.map(|x| x.1).unwrap_or_default())))
         }
         "enc-validate" => {
             let pcm = crate::core::ivec(&v["pcm"]);
